@@ -152,9 +152,11 @@ pub fn record_run(tr: &mut Trace, run: usize, world: &World, tok: &mut StatefulT
             let modtext = cps(input.current());
             let list = MorphemeList::from_components(world.dict.clone(), input, nodes, subset);
             let r = catch(std::panic::AssertUnwindSafe(|| morphemes_json(&list, &nb)));
+            // the difference of the first and last total costs; split pieces carry i32::MAX (known finding of C03): 0 when it cannot be computed
+            let internal = catch(std::panic::AssertUnwindSafe(|| list.get_internal_cost())).unwrap_or(0);
             match r {
                 Ok(ms) => {
-                    tr.emit(json!({"ev": "result", "run": run, "res": "ok", "morphemes": ms, "mod": modtext, "chars": nc, "internal_cost": list.get_internal_cost()}));
+                    tr.emit(json!({"ev": "result", "run": run, "res": "ok", "morphemes": ms, "mod": modtext, "chars": nc, "internal_cost": internal}));
                     Some(list)
                 }
                 Err(msg) => {
